@@ -172,8 +172,10 @@ CHECKS = {
         'own counterpart produced; re-training continues from the state at the actor\'s own position; train-only/label actors '
         'are never persistent; and (C04_apply_segment, with the graph model of C03 and the graph semantics of C01) the apply-segment '
         'graph evaluated with the accessor binding ANY stored list to the persistent groups by position computes exactly '
-        'apply_run, so positional binding is the loader semantics of the compiler model. Correspondence (C04Seg.check_case_graph '
-        'replays each later action on the executable graph model too): histories of train / re-train / apply (latest or explicit generation) / '
+        'apply_run, so positional binding is the loader semantics of the compiler model; and the training graph evaluated with a '
+        'previous generation in the accessor delivers at its tails, and trains for the persistent groups, what train_run prev '
+        'denotes (C04_train_graph_generation, C04_train_graph_persisted). Correspondence (C04Seg.check_case_graph replays each '
+        'training and each later action on the executable graph models too, with the observed generations in the accessor): histories of train / re-train / apply (latest or explicit generation) / '
         'performance-tracking evaluation through the real Composition.persistent and asset.State machinery, each action in a '
         'fresh process under another hash seed; histories in which the hyper-parameters of the code change between training and '
         'loading, with actors that restore their own hyper-parameter from the state (judged by the oracle: the current code\'s '
